@@ -601,3 +601,42 @@ Fixpoint oas_valid (use_x : bool) (s : oas) (v : val) {struct s} : bool :=
         end
     end
   end.
+
+(* ------------------------------------------------------------------------------------ *)
+(* 8. Generation settings                                                                 *)
+(* ------------------------------------------------------------------------------------ *)
+(* formats.header_values + _hypothesis._build_custom_formats: the alphabet of the _header_value format that plain
+   string headers / cookies get: latin-1 without CR / LF, without NUL when allow_x00 is off; the codec is not consulted *)
+Definition header_char_ok (allow_x00 : bool) (c : N) : bool :=
+  (N.leb c 255) && negb (N.eqb c 10) && negb (N.eqb c 13) && (allow_x00 || negb (N.eqb c 0)).
+Inductive codec := CodecAscii | CodecLatin1 | CodecUtf8.
+Definition codec_ok (cd : codec) (c : N) : bool :=
+  match cd with CodecAscii => N.ltb c 128 | CodecLatin1 => N.leb c 255 | CodecUtf8 => true end.
+
+(* _hypothesis._get_body_strategy / get_parameters_strategy: strategies are cached per parameter object (and factory),
+   the generation settings are not part of the key.  A strategy is represented by the settings it was built under. *)
+Definition gsettings := (bool * codec)%type.
+Definition scache := list (N * gsettings).
+Fixpoint cache_find (key : N) (c : scache) : option gsettings :=
+  match c with [] => None | (k, g) :: c' => if N.eqb k key then Some g else cache_find key c' end.
+Definition get_strategy (c : scache) (key : N) (g : gsettings) : gsettings * scache :=
+  match cache_find key c with Some old => (old, c) | None => (g, (key, g) :: c) end.
+(* a history of as_strategy calls: (parameter, requested settings) -> the settings of the strategy actually used *)
+Fixpoint run_calls (c : scache) (calls : list (N * gsettings)) : list gsettings :=
+  match calls with
+  | [] => []
+  | (k, g) :: rest => let '(used, c') := get_strategy c k g in used :: run_calls c' rest
+  end.
+Definition gs_eqb (a b : gsettings) : bool :=
+  Bool.eqb (fst a) (fst b) &&
+  match snd a, snd b with CodecAscii, CodecAscii | CodecLatin1, CodecLatin1 | CodecUtf8, CodecUtf8 => true | _, _ => false end.
+(* every parameter is always asked for with the same settings *)
+Fixpoint consistent_calls (seen : scache) (calls : list (N * gsettings)) : bool :=
+  match calls with
+  | [] => true
+  | (k, g) :: rest =>
+    match cache_find k seen with
+    | Some old => gs_eqb old g && consistent_calls seen rest
+    | None => consistent_calls ((k, g) :: seen) rest
+    end
+  end.
